@@ -126,11 +126,23 @@ def fileTypeOf (b : Nat) : Option FileType := fileTypes.find? (fun T => T.ftype 
 
 /-! ### Specification side (what the property demands; used by the theorems and by `--prop`) -/
 
-/-- the messages a file keeps: all of them, except that of the messages whose number is stored in a
-single-valued slot only the last one survives -/
+/-- the same with the kinds the probe observed (equal to `keepLastDecl` when the table is well formed: `TableOK`) -/
 def keepLast (T : FileType) : List Msg → List Msg
   | [] => []
   | m :: rest => if isSingle T m.num && rest.any (fun x => x.num == m.num) then keepLast T rest else m :: keepLast T rest
+
+/-- singleton kinds as DECLARED by the struct of the file type -/
+def isSingleDecl (T : FileType) (n : Nat) : Bool :=
+  match slotOf T n with
+  | some s => s.decl == .value || s.decl == .single
+  | none => false
+
+/-- **Specification**: the messages a file must keep: all of them, except that of the messages whose number the struct
+stores in a single-valued field (`mesgdef.FileId`, `*mesgdef.Activity`, …) only the last one survives -/
+def keepLastDecl (T : FileType) : List Msg → List Msg
+  | [] => []
+  | m :: rest =>
+    if isSingleDecl T m.num && rest.any (fun x => x.num == m.num) then keepLastDecl T rest else m :: keepLastDecl T rest
 
 /-- prefix numbers: file_id, developer_data_id, field_description -/
 def isPrefixNum (n : Nat) : Bool := n == mesgNumFileId || n == mesgNumDeveloperDataId || n == mesgNumFieldDescription
